@@ -425,7 +425,8 @@ func (v *visitor) checkFunc(fn reflect.Type, method bool, node ast.Node, name st
 			in = fn.In(i + offset)
 		}
 
-		if isIntegerOrArithmeticOperation(arg) {
+		// An integer literal, or arithmetic on integers, adopts a numeric parameter type.
+		if isIntegerOrArithmeticOperation(arg) && isInteger(t) && !isInterface(t) && isNumber(in) {
 			t = in
 			setTypeForIntegers(arg, t)
 		}
